@@ -17,18 +17,6 @@ theorem lookup_append_single {V : Type} (m : AList JStr V) (k k' : JStr) (v : V)
     · simp [h]
     · simp only [h]; exact ih
 
-/-- the keys a version string registers: both halves of `a~b`, or the plain name -/
-def keysOf (vs : JStr) : List JStr :=
-  match splitOnce TILDE vs with
-  | some (c, s) => [c, s]
-  | none => [vs]
-
-/-- how key `k` refers to version string `vs` -/
-def keyKind (k vs : JStr) : Option Split :=
-  match splitOnce TILDE vs with
-  | some (c, s) => if k = c then some Split.first else if k = s then some Split.second else none
-  | none => if k = vs then some Split.none else none
-
 theorem keyKind_some_mem {k vs : JStr} {sp : Split} (h : keyKind k vs = some sp) : k ∈ keysOf vs := by
   unfold keyKind at h
   unfold keysOf
@@ -41,10 +29,6 @@ theorem keyKind_some_mem {k vs : JStr} {sp : Split} (h : keyKind k vs = some sp)
   · split at h
     · simp_all
     · simp at h
-
-/-- no two different version strings share a key -/
-def KeysDisjoint (vss : List JStr) : Prop :=
-  ∀ v1, v1 ∈ vss → ∀ v2, v2 ∈ vss → v1 ≠ v2 → ∀ k, k ∈ keysOf v1 → k ∉ keysOf v2
 
 /-- the closed form of the `versions` table after registering the version strings `seen` -/
 def VersionsSpec (g : Graph) (seen : List JStr) : Prop :=
@@ -296,42 +280,6 @@ theorem addNode_spec {g : Graph} {seen : List JStr} {vs : JStr}
 end VG
 
 namespace VG
-
-/-- the version strings a directory entry registers, in processing order -/
-def fileVersions (f : JStr × Bytes) : List JStr :=
-  match stripSuffix EXT_TINY f.1 with
-  | some vs => [vs]
-  | none =>
-    match stripSuffix EXT_DIFF f.1 with
-    | some raw =>
-      match splitOnce HASH raw with
-      | some (parent, version) => [version, parent]
-      | none => []
-    | none => []
-
-def dirVersions (dir : List (JStr × Bytes)) : List JStr := dir.flatMap fileVersions
-
-/-- the edge a directory entry stands for -/
-def fileEdge (f : JStr × Bytes) : Option Edge :=
-  match stripSuffix EXT_TINY f.1 with
-  | some _ => none
-  | none =>
-    match stripSuffix EXT_DIFF f.1 with
-    | some raw =>
-      match splitOnce HASH raw with
-      | some (parent, version) => some { parent := parent, child := version, content := f.2 }
-      | none => none
-    | none => none
-
-def dirEdges (dir : List (JStr × Bytes)) : List Edge := dir.filterMap fileEdge
-
-/-- the root a directory entry stands for -/
-def fileRoot (f : JStr × Bytes) : Option (JStr × Bytes) :=
-  match stripSuffix EXT_TINY f.1 with
-  | some vs => some (vs, f.2)
-  | none => none
-
-def dirRoots (dir : List (JStr × Bytes)) : List (JStr × Bytes) := dir.filterMap fileRoot
 
 theorem keysDisjoint_sub {a b : List JStr} (h : KeysDisjoint b) (hs : ∀ x, x ∈ a → x ∈ b) : KeysDisjoint a :=
   fun v1 h1 v2 h2 hne k hk => h v1 (hs _ h1) v2 (hs _ h2) hne k hk
